@@ -316,7 +316,26 @@ def cycle_designs():
     # conditional assignments: the condition is a dependency too
     for txt in ("a[2]", "x[0]", "a[0]", "s"):
         designs.append(("cond", txt))
+    # constant-offset bit_select / word_select inside the signal (documented as the equivalent slice), as targets and operands,
+    # including the selections that end exactly at the most significant bit
+    sel = [n for n, _f in sel_forms()]
+    for (b1, b2) in [(0, 1), (1, 2), (2, 0), (0, 2), (2, 1)]:
+        for n1, n2 in itertools.product(sel, repeat=2):
+            designs.append(("sel", b1, n1, b2, n2))
     return designs
+
+
+def sel_forms():
+    """name -> (expression with bit_select / word_select, the same with slices)"""
+    from amaranth.hdl import Const
+    return [
+        ("a.bit_select(2,1)", (lambda a, x, s: a.bit_select(2, 1), lambda a, x, s: a[2:3])),
+        ("a.bit_select(0,1)", (lambda a, x, s: a.bit_select(0, 1), lambda a, x, s: a[0:1])),
+        ("a.bit_select(Const(1,2),1)&x[0]", (lambda a, x, s: a.bit_select(Const(1, 2), 1) & x[0], lambda a, x, s: a[1:2] & x[0])),
+        ("a.word_select(2,1)", (lambda a, x, s: a.word_select(2, 1), lambda a, x, s: a[2:3])),
+        ("a.bit_select(1,2)[1]", (lambda a, x, s: a.bit_select(1, 2)[1], lambda a, x, s: a[2:3])),
+        ("x.bit_select(2,1)", (lambda a, x, s: x.bit_select(2, 1), lambda a, x, s: x[2:3])),
+    ]
 
 
 def build_cycle_design(desc):
@@ -332,6 +351,14 @@ def build_cycle_design(desc):
             m.d.comb += a[b].eq(rhs)
             from amaranth.hdl import Value
             ref.append((a, b, b + 1, Value.cast(rhs), []))
+    elif desc[0] == "sel":
+        from amaranth.hdl import Value
+        _, b1, n1, b2, n2 = desc
+        sf = dict(sel_forms())
+        for b, n in ((b1, n1), (b2, n2)):
+            real, refx = sf[n]
+            m.d.comb += a.bit_select(b, 1).eq(real(a, x, s))
+            ref.append((a, b, b + 1, Value.cast(refx(a, x, s)), []))
     elif desc[0] == "whole":
         from amaranth.hdl import Value
         rhs = Value.cast(eval(desc[1], {"a": a, "x": x, "s": s, "Cat": Cat, "Mux": Mux}))
@@ -394,7 +421,13 @@ def check_drivers():
     places = [("top", "comb"), ("top", "sync"), ("sub", "comb"), ("sub", "sync")]
     n = 0
     bad = None
-    for (r1, p1), (r2, p2) in itertools.product(itertools.product(ranges, places), repeat=2):
+    def tgt(v, lo, hi, form):
+        if form == "bit_select":
+            return v.bit_select(lo, hi - lo)
+        if form == "word_select" and lo % (hi - lo) == 0:
+            return v.word_select(lo // (hi - lo), hi - lo)
+        return v[lo:hi]
+    for ((r1, p1), (r2, p2)), form in itertools.product(itertools.product(itertools.product(ranges, places), repeat=2), ("slice", "bit_select", "word_select")):
         for inst_bits in (None, (2, 3)):
             n += 1
             sig = Signal(3, name="sig")
@@ -407,11 +440,11 @@ def check_drivers():
             early = False
             for (lo, hi), (mn, dn) in ((r1, p1), (r2, p2)):
                 try:
-                    mods[mn].d[dn] += sig[lo:hi].eq(x[lo:hi])
+                    mods[mn].d[dn] += tgt(sig, lo, hi, form).eq(tgt(x, lo, hi, form))
                 except ASyntaxError:
                     early = True       # refused at construction (same module, other domain): also a rejection
             if inst_bits:
-                top.submodules.inst = Instance("blk", o_q=sig[inst_bits[0]:inst_bits[1]])
+                top.submodules.inst = Instance("blk", o_q=tgt(sig, inst_bits[0], inst_bits[1], form))
             overlap = max(r1[0], r2[0]) < min(r1[1], r2[1])
             want = (overlap and p1 != p2)
             if inst_bits:
@@ -428,8 +461,8 @@ def check_drivers():
             except Exception as e:
                 got = repr(e)[:120]
             if got != want and bad is None:
-                bad = {"drivers": [(r1, p1), (r2, p2)], "instance output bits": inst_bits, "DriverConflict": got, "expected": want,
-                       "how": "3-bit signal, slices driven from (module, domain) pairs, real build_netlist"}
+                bad = {"drivers": [(r1, p1), (r2, p2)], "target form": form, "instance output bits": inst_bits, "DriverConflict": got, "expected": want,
+                       "how": "3-bit signal, bit ranges (written as slices / constant bit_select / constant word_select) driven from (module, domain) pairs, real build_netlist"}
     ok = bad is None
     obs.append({"name": f"drivers::{n}-placements", "kind": "bounded", "status": "proved" if ok else "refuted", "backend": "closed(exhaustive)",
                 "time_s": 0.0, **({} if ok else {"failing_input": bad})})
@@ -445,7 +478,9 @@ def check_early():
     doms = ["comb", "sync", "other"]
     n = 0
     bad = None
-    for seq in itertools.product(itertools.product(ranges, doms), repeat=3):
+    def tgt(v, lo, hi, form):
+        return v.bit_select(lo, hi - lo) if form == "bit_select" else v[lo:hi]
+    for seq, form in itertools.product(itertools.product(itertools.product(ranges, doms), repeat=3), ("slice", "bit_select")):
         n += 1
         m = Module()
         sig, x = Signal(3), Signal(3)
@@ -455,12 +490,12 @@ def check_early():
         for k, ((lo, hi), dn) in enumerate(seq):
             conflict = any(owner[b] is not None and owner[b] != dn for b in range(lo, hi))
             try:
-                m.d[dn] += sig[lo:hi].eq(x[lo:hi])
+                m.d[dn] += tgt(sig, lo, hi, form).eq(x[lo:hi])
                 raised = False
             except ASyntaxError:
                 raised = True
             if raised != conflict:
-                bad = bad or {"sequence": seq[:k + 1], "SyntaxError": raised, "expected": conflict}
+                bad = bad or {"sequence": seq[:k + 1], "target form": form, "SyntaxError": raised, "expected": conflict}
                 break
             if raised:
                 break
